@@ -318,6 +318,10 @@ class Intrinsics:
         return [(i + start, x) for i, x in enumerate(P.iterate(it))]
 
     def b_zip(self, P, *its, strict=False):
+        from . import zipseqs   # zipseqs: zip of symbolic key sequences
+        z = zipseqs.make_zip(its) if not strict else None
+        if z is not None:
+            return z
         ls = [P.iterate(i) for i in its]
         if strict and len(set(len(l) for l in ls)) > 1:
             from .interp import SymRaise, mk_exc
@@ -676,6 +680,12 @@ class Intrinsics:
         if P.txns:
             from .interp import MergeAbort
             raise MergeAbort()
+        if type(xs).__name__ == 'SymSetImage' and type(xs.set).__name__ == 'SymBag':
+            # zipseqs: message lines built from an append-only list (text of exception messages is not modelled;
+            # the element expression -- stmt.format(), loc.format() -- is NOT evaluated)
+            from .values import Opaque
+            recv.append(Opaque('message-lines:str'))
+            return
         recv.extend(P.iterate(xs))
 
     def m_list_pop(self, P, recv, i=-1):
@@ -939,6 +949,10 @@ class Intrinsics:
 
     def s_seq_at(self, P, seq, i):
         return containers.seq_at(P, seq, i)
+
+    def s_pair_snd_at(self, P, seq, i):   # zipseqs
+        from . import zipseqs
+        return zipseqs.pair_snd_at(P, seq, i)
 
     def s_seq_len(self, P, seq):
         return containers.seq_len(P, seq)
